@@ -351,6 +351,9 @@ Definition pipe_frontend_hup (p : pipe) : pipe * result :=
 
 (** [Pipe::backend_hup] *)
 Definition pipe_backend_hup (p : pipe) : pipe * result :=
+  if (0 <? avail_data (fbuf p)) && negb (re (be p)) then
+    (p_be (p_bi p (set_w (bi p) true)) (set_h (be p) false), Continue)
+  else
   let p := p_bst p CClosed in
   if avail_data (bbuf p) =? 0 then
     if rr (be p) then (p_bi p (set_r (bi p) true), Continue) else (p, Close)
